@@ -402,6 +402,7 @@ def run(ctx):
                 r7.fail(key, "pops a key from the caller's sheet data (second conversion of the same dict sees different input)", w2j.loc(node))
             else:
                 r7.fail(key, "writes into the caller's sheet data", w2j.loc(node))
+    fresh_rows_obligations(ctx, r7, "C14.R7")
     ctv = ctx.func("pyxform.xls2json:clean_text_values", "C14.R7")
     for wkind, tgt, node in writes_in(ctv.node):
         if wkind == "store":
@@ -410,6 +411,28 @@ def run(ctx):
             r7.check(idem, f"clean_text_values:{norm(node)[:50]}", "in-place clean-up of the caller's rows is idempotent (normalised text / deterministic row number)", ctv.loc(node))
     rules.append(r7)
     return rules
+
+
+def fresh_rows_obligations(ctx, r7, rid):
+    """The assumption behind "rebound by a call => no longer the caller's": the header grouping hands back NEW row dicts.
+    Evaluated: process_row's result is never the row object it was given (the row loop pops cells - disabled, ... - from
+    its rows, so an aliased row is consumed: the same dict converted twice then emits the disabled rows)."""
+    from ..interp import Raised
+    pr = ctx.func("pyxform.parsing.sheet_headers:process_row", rid)
+    for desc, row, key in (("plain headers only", {"type": "text", "name": "q", "disabled": "yes"}, {"type": ("type",), "name": ("name",), "disabled": ("disabled",)}),
+                           ("one plain header", {"type": "text"}, {"type": ("type",)}),
+                           ("translated header", {"type": "text", "label::en": "L"}, {"type": ("type",), "label::en": ("label", "en")}),
+                           ("row number only", {"__row": 2}, {}),
+                           ("empty row", {}, {})):
+        itp = ctx.interp(rid)
+        itp.reset([])
+        before = dict(row)
+        try:
+            out = itp.call_function(pr, [], {"sheet_name": "survey", "row": row, "header_key": key, "default_language": "default"}, None, pr.node)
+        except Raised as e:
+            out = f"raises {e.exc_name}"
+        r7.check(isinstance(out, dict) and out is not row and row == before, f"process_row[{desc}]", "returns a new dict and leaves the caller's row as it was", pr.loc(),
+                 why_fail=("the caller's row object itself is returned: the row loop's pops (disabled, ...) then consume the caller's input" if out is row else repr(out)[:120]))
 
 
 def _locally_created(fi, name) -> bool:
